@@ -292,6 +292,7 @@ func newWorld(r *simrun.Run, prop string) *world {
 		&simAuthorizer{w, "exec"}, &simAuthorizer{w, "drain"}, &simAuthorizer{w, "kill"}, &simAuthorizer{w, "sync"},
 	)
 	w.lock = w.bq.VerifLock().(*simsync.Mutex)
+	r.Logf("config: update=%s noWaiters=%s queueTimeout=%s retries=%d workerTimeout=%s idleSync=%s timePressure=%d", w.cfg.ExecutionUpdateInterval, w.cfg.OperationWithNoWaitersTimeout, w.cfg.PlatformQueueWithNoWorkersTimeout, w.cfg.WorkerTaskRetryCount, w.cfg.WorkerWithNoSynchronizationsTimeout, idle, w.timePressure)
 	for _, q := range w.queues {
 		r.Logf("%s", q)
 		if q.predeclared {
